@@ -21,6 +21,7 @@ class Spec:
         self.sign = g.get("sign")
         self.align = g.get("align")
         self.fill = g.get("fill")
+        self.group = g.get("group")
 
     def __repr__(self):
         return f"Spec({self.text!r})"
